@@ -105,3 +105,11 @@ Theorem C05_slab_fault_dispatch : forall (F : Type) (NF : Num F) g fault sph q p
      then apply_op o old (fmul Tp (fexp (fmul (fdiv (fmul alpha (q_g q)) cp) (q_depth q)))) else old).
 Proof. intros F NF g fault sph q pd th tot old. exact (stemp_dispatch g fault sph q pd th tot old). Qed.
 Print Assumptions C05_slab_fault_dispatch.
+
+(** the bound water content (tian water content models of oceanic and subducting plates) lies between 0 and the
+    configured initial water content (given in per cent, painted as a fraction), whatever pressure and temperature *)
+From WB Require Import Tian CallbackProofs.
+Theorem C05_water_content_bounds : forall (sp : special) l density maxw cutoff depth T, (0 <= maxw)%R ->
+  (0 <= @tian_value R (Rnum sp) l density maxw cutoff depth T <= maxw / 100)%R.
+Proof. intros sp l density maxw cutoff depth T H. exact (tian_value_bounds sp l density maxw cutoff depth T H). Qed.
+Print Assumptions C05_water_content_bounds.
